@@ -156,13 +156,14 @@ int ubuf_pic_plane_set_color(struct ubuf *ubuf, const char *chroma,
     UBASE_RETURN(ubuf_pic_plane_write(ubuf, chroma, hoffset, voffset,
                                       hsize, vsize, &buf))
 
+    /* negative offsets start from the end */
     if (hsize == -1) {
-        width -= hoffset;
+        width = hoffset < 0 ? -hoffset : width - hoffset;
     } else {
         width = hsize;
     }
     if (vsize == -1) {
-        height -= voffset;
+        height = voffset < 0 ? -voffset : height - voffset;
     } else {
         height = vsize;
     }
